@@ -11,6 +11,12 @@ DeepAlt  == [r |-> {}, s |-> {}, m |-> {"s", "r"}, l |-> {"m", "s"}]
 AnyFlagSets == SUBSET Flags
 AllEnv   == {"Edit", "Touch", "DeleteArt", "Truncate", "StripKey", "ResaveArt", "Replace", "MakeCsr", "EditProfile", "Expire", "SetIssuer", "RemoveConfig", "AddConfig"}
 LeafProfile == {"l"}
+\* layout `inherit`: the chain, `s` has no validity block and references the profile from the start; three profile content values
+InheritParent == ChainParent
+InheritAlt == ChainAlt
+InheritEnts == {"s"}
+InheritProfile == {"l", "s"}
+ThreeValues == {0, 1, 2}
 AllFault == {"SignFail", "WriteErr", "WriteTorn", "Die"}
 \* the judgement is made while evaluating the ASSUME of RepoTrace; nothing is left to explore
 TInit == st = InitState /\ nenv = 0
